@@ -75,16 +75,7 @@ def exact_box(seg, M):
     return box, n
 
 
-def closure_gap(seg):
-    """how far the arc's computed curve misses its own stored end points (the library snaps t=0 and t=1 to them);
-    capped: a large gap is C05's subject, not a bounding box matter"""
-    if lib.kind_of(seg) != "A" or abs(seg.sweep) < 1e-12:
-        return 0.0
-    a, b = lib.xy(seg.point(1e-12)), lib.xy(seg.point(1.0 - 1e-12))
-    s, e = lib.xy(seg.start), lib.xy(seg.end)
-    g = max(abs(a[0] - s[0]), abs(a[1] - s[1]), abs(b[0] - e[0]), abs(b[1] - e[1]))
-    S = max(1e-3, abs(s[0]), abs(s[1]), abs(e[0]), abs(e[1]), seg.rx, seg.ry)
-    return min(g * 2.0, 1e-6 * S)
+closure_gap = c02.closure_gap
 
 
 def fast_eval(seg):
